@@ -849,6 +849,10 @@ impl XmlAttributeValue {
                 }
                 parser::Reference::Entity(v) => {
                     let entity = context.entity(v)?;
+                    // WFC: No External Entity References
+                    if entity.borrow().system_identifier().is_some() {
+                        return Err(error::Error::InvalidData(v.to_string()));
+                    }
                     let entity =
                         XmlUnexpandedEntityReference::node(entity, Some(parent_id), context);
                     Ok(Some(XmlAttributeValue::Entity(entity)))
